@@ -843,6 +843,23 @@ impl<'a> Tx<'a> {
                 format!("h.{}_{}(this, {})", name, f, v)
             }
             "abs" if self.ops => format!("iabs({})", self.expr(&m.receiver)),
+            "map_or" if self.ops && m.args.len() == 2 && matches!(&m.args[1], syn::Expr::Closure(_)) => {
+                // R66: X.map_or(d, |v| B)  ->  match X { Some(v) => B, None => d }
+                if let syn::Expr::Closure(cl) = &m.args[1] {
+                    let x = self.expr(&m.receiver);
+                    let x = self.hoist(x);
+                    let d = self.expr(&m.args[0]);
+                    let v = cl.inputs.first().map(|p| toks(p)).unwrap_or_default();
+                    let b = self.expr(&cl.body);
+                    return format!("(match {} {{ Some({}) => {}, None => {} }})", x, v, b, d);
+                }
+                String::new()
+            }
+            "get" if self.ops && !self.wrap && matches!(&*m.receiver, syn::Expr::Path(pp) if pp.path.get_ident().map(|i| i == "other").unwrap_or(false)) => {
+                // R67: a lookup in another map passed as `other`
+                let args: Vec<String> = m.args.iter().filter(|a| !is_drop_arg(a)).map(|a| self.expr(a)).collect();
+                format!("get(h, other, {})", args.join(", "))
+            }
             "max" | "min" if self.ops && m.args.len() == 1 => {
                 // R57: a.max(b) / a.min(b) on integers
                 let a = self.expr(&m.receiver);
@@ -1257,6 +1274,40 @@ impl<'a> Tx<'a> {
                 }
                 self.push(ind, "}".into(), 0, false);
             }
+            syn::Expr::MethodCall(mc) if self.ops && !semi && mc.method == "all" && mc.args.len() == 1 && matches!(&mc.args[0], syn::Expr::Closure(_))
+                && matches!(&*mc.receiver, syn::Expr::MethodCall(r0) if r0.method == "iter" && toks(&*r0.receiver) == "self") => {
+                // R68: self.iter(g).all(|PAT| BODY) as the function's value: the same loop over a fresh iterator, leaving with false at the
+                // first item for which BODY is false, true at the end
+                if let syn::Expr::Closure(cl) = &mc.args[0] {
+                    let pat = cl.inputs.first().map(|p| toks(p)).unwrap_or_default();
+                    self.push(ind, "let mut it_for = iter_new(h, this);".into(), ln, true);
+                    self.push(ind, "loop".into(), ln, false);
+                    let k = self.loop_count;
+                    self.loop_count += 1;
+                    self.mark(ind + 1, format!("loop:{}", k));
+                    self.push(ind, "{".into(), 0, false);
+                    self.push(ind + 1, "let it_item = iter_next(h, &mut it_for);".into(), ln, true);
+                    self.push(ind + 1, "if it_item.is_none() {".into(), ln, false);
+                    self.push(ind + 2, "break;".into(), ln, true);
+                    self.push(ind + 1, "}".into(), 0, false);
+                    self.push(ind + 1, format!("let {} = it_item.unwrap();", pat), ln, true);
+                    self.mark(ind + 1, format!("loophead:{}", k));
+                    let b = self.expr(&cl.body);
+                    let b = self.hoist(b);
+                    self.push(ind + 1, format!("if !({}) {{", b), ln, false);
+                    let rk = self.ret_count;
+                    self.ret_count += 1;
+                    self.mark(ind + 2, format!("ret#{}", rk));
+                    self.push(ind + 2, "return false;".into(), ln, true);
+                    self.push(ind + 1, "}".into(), 0, false);
+                    self.mark(ind + 1, format!("loopend:{}", k));
+                    self.push(ind, "}".into(), 0, false);
+                    let rk2 = self.ret_count;
+                    self.ret_count += 1;
+                    self.mark(ind, format!("ret#{}", rk2));
+                    self.push(ind, "true".into(), ln, false);
+                }
+            }
             syn::Expr::Loop(l) if self.ops && !semi && own_break_value(&l.body) => {
                 // R50: a loop in tail position whose value is given by `break V`: the value goes through a fresh variable (R27)
                 let name = format!("loop_val{}", self.loop_count);
@@ -1312,6 +1363,27 @@ impl<'a> Tx<'a> {
                     self.mark(ind + 1, format!("loopend:{}", k));
                     self.push(ind, "}".into(), 0, false);
                 }
+            }
+            syn::Expr::ForLoop(fl) if self.ops && matches!(&*fl.expr, syn::Expr::Path(pp) if pp.path.get_ident().map(|i| i == "iter").unwrap_or(false)) => {
+                // R69: for PAT in iter { body } over an iterator passed as the parameter `iter`: the same loop over that iterator
+                let pat = toks(&*fl.pat);
+                self.push(ind, "let mut it_for = iter;".into(), ln, true);
+                self.push(ind, "loop".into(), ln, false);
+                let k = self.loop_count;
+                self.loop_count += 1;
+                self.mark(ind + 1, format!("loop:{}", k));
+                self.push(ind, "{".into(), 0, false);
+                self.push(ind + 1, "let it_item = iter_next(h, &mut it_for);".into(), ln, true);
+                self.push(ind + 1, "if it_item.is_none() {".into(), ln, false);
+                self.push(ind + 2, "break;".into(), ln, true);
+                self.push(ind + 1, "}".into(), 0, false);
+                self.push(ind + 1, format!("let {} = it_item.unwrap();", pat), ln, true);
+                self.mark(ind + 1, format!("loophead:{}", k));
+                self.break_targets.push(None);
+                self.block(&fl.body, ind + 1);
+                self.break_targets.pop();
+                self.mark(ind + 1, format!("loopend:{}", k));
+                self.push(ind, "}".into(), 0, false);
             }
             syn::Expr::ForLoop(fl) if self.ops && toks(&*fl.expr).replace(' ', "").starts_with("self.iter(") => {
                 // R40: for PAT in self.iter(guard) { body }: the same loop over a fresh iterator
